@@ -472,6 +472,18 @@ fn realistic_chunk_name() -> impl Strategy<Value = String> {
     (1usize..=55).prop_map(|s| format!("20240804-101007-{:03}-{}", s, match s { 1 => "S", 55 => "E", _ => "I" }))
 }
 
+/// Names as NOAA really writes them into the archive bucket: volume files of several Archive II versions, the
+/// hourly model-data-message objects (`_MDM`), compressed and tar-ed legacy names -- every one is an object of the
+/// listing and must come back.
+fn realistic_archive_name() -> impl Strategy<Value = String> {
+    (
+        proptest::sample::select(vec!["KDMX", "KTLX", "PHWA", "TJUA", "RKSG", "DAN1"]),
+        0u32..86_400,
+        proptest::sample::select(vec!["_V06", "_V06_MDM", "_MDM", "_V03.gz", ".gz", "_V08", "", "_V06.tar", "_V07_MDM", "_NXL2DPBL", ".Z", "_V06.tmp"]),
+    )
+        .prop_map(|(site, t, tail)| format!("{}20220305_{:02}{:02}{:02}{}", site, t / 3600, t / 60 % 60, t % 60, tail))
+}
+
 fn stamp() -> impl Strategy<Value = Stamp> {
     (946_684_800i64..4_102_444_800, prop_oneof![Just(0u8), Just(3u8), Just(6u8)], 0u32..1_000_000, any::<bool>()).prop_map(|(secs, frac_digits, micros, zulu)| Stamp { secs, frac_digits, micros, zulu })
 }
@@ -496,6 +508,7 @@ fn list_case(max_objects: usize) -> impl Strategy<Value = ListCase> {
         let names = prop_oneof![
             3 => vec(segment(), n),
             1 => vec(realistic_chunk_name(), n),
+            1 => vec(realistic_archive_name(), n),
         ];
         let size = prop_oneof![6 => any::<u32>().prop_map(|v| v as u64), 1 => Just(0u64), 1 => Just(u64::MAX), 1 => any::<u64>()];
         // sibling prefixes that do not share the requested string prefix
@@ -609,6 +622,7 @@ pub fn classify_list(c: &ListCase) -> CaseInfo {
         .class(matches!(c.fault, ListFault::BadSize(..)), "bad-size")
         .class(c.delivery & 1 != 0, "chunked-transfer-encoding")
         .class(c.delivery >> 2 != 0, "numeric-character-references")
+        .class(c.archive && c.names.iter().any(|n| n.ends_with("_MDM") || n.ends_with(".gz") || n.ends_with(".tar")), "archive-names-other-than-volumes")
 }
 
 pub fn run(ctx: &Ctx, rep: &mut Report) {
@@ -662,6 +676,7 @@ pub fn run(ctx: &Ctx, rep: &mut Report) {
     rep.require_class("listings", "bad-size", 20);
     rep.require_class("listings", "archive", 100);
     rep.require_class("listings", "realtime", 100);
+    rep.require_class("listings", "archive-names-other-than-volumes", 50);
 
     rep.prop(
         "downloads",
